@@ -115,6 +115,8 @@ var SweepSlots = [][2]string{
 	{"a ", " b\n"}, {"a", "b c\n"}, {"x \"s", "t\" y\n"}, {"x `r", "q` y\n"}, {"a b //c", "d\n"}, {"//c", "d\na b\n"},
 	{"a (\n\tb ", "\n)\n"}, {"a (\n\tb c //e", "\n)\n"}, {"a ( //f", "\n\tb\n)\n"}, {"a (\n\tb\n) //g", "\n"},
 	{"", "a b\n"}, {"a b\n", ""}, {"a b ", ""}, {"a b //c", ""}, {"a \"s\\", "t\" y\n"},
+	// at the very start and at the very end of a file that has whole-line and end-of-line comments
+	{"", "a b\n// whole line\nc d // e\n\n// f\ng (\n\t// h\n\ti\n)\n"}, {"a b\n// whole line\nc d // e\n// f\n", ""}, {"// lead\n", "a b\n// whole\nc\n"},
 }
 
 // SweepFills are all 256 byte values plus format verbs, multi-byte runes and line endings.
@@ -123,7 +125,7 @@ func SweepFills() []string {
 	for b := 0; b < 256; b++ {
 		fills = append(fills, string([]byte{byte(b)}))
 	}
-	fills = append(fills, "%s", "%d", "%%", "%!", "%v%", "é", "\u212a", "\ufffd", "\u00a0", "\u2028", "\u3000", "\xe2\x82", "\r\n", "\n\n", "//", "/*", "*/")
+	fills = append(fills, "%s", "%d", "%%", "%!", "%v%", "é", "\u212a", "\ufffd", "\u00a0", "\u2028", "\u3000", "\xe2\x82", "\r\n", "\n\n", "//", "/*", "*/", "\ufeff", "\ufeff\ufeff", "\xef\xbb", "\ufffe", "\u200b", "\u0085", "\x00\x00")
 	// words the typed layer gives a meaning to, and near misses of them (whole, cut short, run together)
 	fills = append(fills, " indirect", " indirect;", " indirect; ", " indirect;x", "indirect;", " indirect ;", " indirect;;", " Indirect;", "\tindirect;\t",
 		" Deprecated:", " Deprecated: ", "Deprecated:x", " deprecated: x", "+incompatible", " v1.0.0", " =>", " => ", "=>", " [", "]", ", ",
